@@ -147,10 +147,12 @@ class State:
         self.depth = 0
         self.axiom_hooks = []
         self.capture = None  # when a list: assumptions are collected (inside a quantifier body) instead of asserted
+        self.has_quant = False  # a quantified formula is among the assumptions: sat-direction checks tend to time out
 
     # ---- fresh symbols
     def fresh_name(self, hint):
         self.counter += 1
+        hint = hint.replace("'", "^")  # `'` is not legal in an unquoted SMT-LIB symbol (cvc5 rejects the script)
         return f"{hint}!{self.counter}"
 
     def fresh_int(self, hint="i"):
@@ -177,6 +179,8 @@ class State:
             f = f.e
         if z3.is_true(f):
             return
+        if not self.has_quant and _has_quantifier(f):
+            self.has_quant = True
         self.pc.append(f)
         self.solver.add(f)
 
@@ -212,7 +216,9 @@ class State:
                 if z3.is_true(c):
                     feas.append(i)
                     continue
-                r, _ = self._check(c, self.cfg.branch_timeout_ms)
+                # feasibility is an optimisation (an infeasible path only costs time): with quantified assumptions
+                # a `sat` answer is rarely reached, so do not wait long for it
+                r, _ = self._check(c, min(self.cfg.branch_timeout_ms, 250) if self.has_quant else self.cfg.branch_timeout_ms)
                 if r != z3.unsat:
                     feas.append(i)
             if not feas:
@@ -405,6 +411,23 @@ class State:
     # ---- ghost trace
     def event(self, *ev):
         self.trace.append(ev)
+
+
+def _has_quantifier(f, cap=4000):
+    """Does the z3 formula contain a quantifier? (bounded search; a huge formula counts as 'yes')"""
+    todo, seen = [f], set()
+    while todo:
+        e = todo.pop()
+        if z3.is_quantifier(e):
+            return True
+        k = e.get_id()
+        if k in seen:
+            continue
+        seen.add(k)
+        if len(seen) > cap:
+            return True
+        todo.extend(e.children())
+    return False
 
 
 def _short(f, n=300):
